@@ -72,6 +72,9 @@ impl Rng {
 
     /// Uniform in lo..=hi.
     pub fn range(&mut self, lo: u64, hi: u64) -> u64 {
+        if hi <= lo {
+            return lo;
+        }
         lo + self.below(hi - lo + 1)
     }
 
